@@ -31,8 +31,11 @@ RULE = ("entry sets of 0-40 entries (plus a few of several hundred entries with 
         "through from_dict (entries as list / tuple / generator / iterator, OrderedDict, explicit id / raw_manifest keys, "
         "the same dict twice), the deprecated dict argument (same dict twice, stale ids), evolve, to_dict -> from_dict, "
         "explicit stale ids, (d) formats a VARIANT set right after (one target / mode / type / name changed, two targets / "
-        "modes / types swapped, an entry dropped / added; for an invalid set: the repaired set) and then the first set "
-        "again, (e) calls directory_entry_sort_key on dict entries and format_git_object_from_parts on a one-shot "
+        "modes / types swapped, an entry dropped / added; in a quarter of the cases ONLY the type of an entry that has a "
+        "sibling extending its name with a byte below '/' - every ordered pair of types, same mode / name / target; for an "
+        "invalid set: the repaired set) and then the first set again - both through the constructors and through every "
+        "dictionary-decoding route (Directory.from_dict, directory_git_object(<dict>), DirectoryEntry.from_dict of each row, "
+        "entries given as list / tuple / generator / iterator), each result being that of its own dictionary, (e) calls directory_entry_sort_key on dict entries and format_git_object_from_parts on a one-shot "
         "generator of chunks, (f) gives a raw_manifest (b'', its own manifest, junk); invalid sets (duplicate names incl. "
         "the same entry twice, '/' in a name: inside, leading, trailing, alone, doubled) included; non-trivial = >=2 "
         "entries whose names are prefixes of each other or straddle '/'; distinct = distinct request")
@@ -155,11 +158,33 @@ def gen_entries(rng, n, kind):
     return es, bad
 
 
-def gen_variant(rng, es, bad):
+LOW = [b".", b"-", b" ", b"\n", b"!", b"\x01", b"+", b","]      # bytes that sort below '/'
+
+
+def _with_prefix_pair(rng, es):
+    """make sure some entry has a sibling whose name extends its own with a byte below '/' (added when absent);
+    -> (entries, that entry)"""
+    es = list(es)
+    names = {e[0] for e in es}
+    for e in rng.sample(es, len(es)):
+        n = bytes.fromhex(e[0])
+        if any(bytes.fromhex(x).startswith(n) and len(x) > len(e[0]) and bytes.fromhex(x)[len(n)] < 0x2f for x in names):
+            return es, e
+    e = rng.choice(es)
+    nm = (bytes.fromhex(e[0]) + rng.choice(LOW) + rng.choice([b"", b"b", b"c"])).hex()
+    es.append([nm, rng.choice(TYPES), gen_target(rng, len(e[2]) // 2).hex(), gen_perms(rng)])
+    return es, e
+
+
+def gen_variant(rng, es, bad, retype=None):
     """a second entry set, formatted right after the first: one field of one entry changed, two fields swapped, an
-    entry dropped or added; for a set made invalid by one entry: the repaired set"""
+    entry dropped or added; for a set made invalid by one entry: the repaired set; retype: the entry whose type alone
+    changes (same mode, name and target), every ordered pair of types"""
     if bad is not None:
         return {"kind": "repaired", "entries": [e for e in es if e is not bad]}
+    if retype is not None:
+        t2 = rng.choice([t for t in TYPES if t != retype[1]])
+        return {"kind": "type_prefix:%s->%s" % (retype[1], t2), "entries": [[e[0], t2, e[2], e[3]] if e is retype else list(e) for e in es]}
     names = {e[0] for e in es}
     kinds = ["add"] if not es else [k for k in VARIANTS if len(es) >= 2 or not k.startswith("swap")]
     k = rng.choice(kinds)
@@ -200,6 +225,9 @@ def gen_variant(rng, es, bad):
 
 def _decorate(rng, es, bad, first=None):
     """the dimensions every case carries besides the entry set"""
+    retype = None
+    if bad is None and es and len(es) <= 40 and rng.random() < 0.25:
+        es, retype = _with_prefix_pair(rng, es)
     es = _ordered(rng, es, first or rng.choice(ORDERS))
     perm = list(range(len(es)))
     rng.shuffle(perm)
@@ -214,7 +242,7 @@ def _decorate(rng, es, bad, first=None):
             "stale": rng.choice(["01" * 20, "00" * 20, bytes(rng.randrange(256) for _ in range(20)).hex()]),
             "raw": rng.choice([None, None, "", "own", "74726565203000", bytes(rng.randrange(256) for _ in range(rng.randrange(1, 30))).hex()]),
             "cuts": [rng.randrange(100000) for _ in range(rng.randrange(0, 5))],
-            "variant": gen_variant(rng, es, bad)}
+            "variant": gen_variant(rng, es, bad, retype)}
 
 
 def gen_special(rng, tier):
@@ -339,7 +367,9 @@ def classify(c):
         ks.append("raw:" + ("none" if c["raw"] is None else "empty" if c["raw"] == "" else "own" if c["raw"] == "own" else "other"))
         ks.append("first-read:" + c["reads"][0])
         if c.get("variant"):
-            ks.append("variant:" + c["variant"]["kind"])
+            ks.append("variant:" + c["variant"]["kind"].split(":")[0])
+            if ":" in c["variant"]["kind"]:
+                ks.append("variant:" + c["variant"]["kind"])
     return ks
 
 
@@ -616,7 +646,34 @@ def _impl_variant(c, res, d):
         out["evolve"] = _try(lambda: d.evolve(entries=_build_entries(v["entries"])).id.hex())
         out["id_again"] = _try(lambda: _build(c["entries"]).id.hex())
         out["manifest_again"] = _try(lambda: git_objects.directory_git_object(d).hex())
+    # the same neighbour step through every dictionary-decoding route (the first set was decoded through them above):
+    # each result must be that of its own dictionary - the second set's, then again the first set's
+    how = c.get("dict_as", "list")
+    out["dict_routes"] = _try(lambda: _via_dicts(v["entries"], how))
+    if d is not None:
+        out["dict_routes_first_again"] = _try(lambda: _via_dicts(c["entries"], how))
     res["variant"] = out
+
+
+def _via_dicts(entries, how):
+    """[id by Directory.from_dict, manifest by directory_git_object(<dict>), DirectoryEntry.from_dict of each row] of one
+    dictionary; the last is "ok" when every entry has the four fields of its row"""
+    import warnings
+    from swh.model import git_objects
+    from swh.model.model import Directory, DirectoryEntry
+    ident = Directory.from_dict(_dict_arg(entries, how)).id.hex()
+    with warnings.catch_warnings():
+        warnings.simplefilter("ignore")
+        man = git_objects.directory_git_object(_dict_arg(entries, how)).hex()
+    rows = "ok"
+    for x in _ent_dicts(entries):
+        e = DirectoryEntry.from_dict(dict(x))
+        if (e.name, e.type, e.target, e.perms) != (x["name"], x["type"], x["target"], x["perms"]):
+            rows = "DirectoryEntry.from_dict of the row (name %s, type %s, target %s, perms %o) is an entry (name %s, type %s, target %s, perms %o)" % (
+                x["name"].hex(), x["type"], x["target"].hex(), x["perms"], e.name.hex(), e.type, e.target.hex(), e.perms)
+            break
+    ident2 = Directory(entries=tuple(DirectoryEntry.from_dict(dict(x)) for x in _ent_dicts(entries))).id.hex()
+    return [ident, man, rows] if ident2 == ident else [ident, man, rows, "Directory(entries=<DirectoryEntry.from_dict of each row>) has id " + ident2]
 
 
 def enc_entries(es):
@@ -748,6 +805,10 @@ def oracle(c, ires, mres):
     return None
 
 
+def _short(x):
+    return x[:300] if isinstance(x, str) else [str(y)[:160] for y in x]
+
+
 def _oracle_variant(c, ires, mres, base):
     """the variant set is a directory like any other: git's tree id, whatever was formatted just before; and a
     different (mode, name, target) set never gets the manifest of the first one (C02_distinct_sets_distinct_manifests)"""
@@ -759,8 +820,15 @@ def _oracle_variant(c, ires, mres, base):
         return lab + "manifest differs from git's tree object for these entries"
     if iv["id"] != hashlib.sha1(bytes.fromhex(iv["manifest"])).hexdigest():
         return lab + "id is not the SHA-1 of the manifest"
+    if "dict_routes" in iv and iv["dict_routes"] != [iv["id"], iv["manifest"], "ok"]:
+        return lab + ("decoded from its dictionary (Directory.from_dict id / directory_git_object(<dict>) manifest / DirectoryEntry.from_dict "
+                      "of each row; entries given as %s) right after the first set's dictionary: %s; built with the constructors: id %s manifest %s..."
+                      % (c.get("dict_as", "list"), _short(iv["dict_routes"]), iv["id"], iv["manifest"][:60]))
     if base is None:
         return None
+    if "dict_routes_first_again" in iv and iv["dict_routes_first_again"] != [base["id"], base["manifest"], "ok"]:
+        return ("the first set decoded from its dictionary again after the second set's (%s; entries given as %s): %s; before: id %s manifest %s..."
+                % (v["kind"], c.get("dict_as", "list"), _short(iv["dict_routes_first_again"]), base["id"], base["manifest"][:60]))
     if iv["evolve"] != iv["id"]:
         return lab + "first.evolve(entries=<second set>) has id %s, the second set's id is %s" % (iv["evolve"], iv["id"])
     if iv["id_again"] != base["id"] or iv["manifest_again"] != base["manifest"]:
@@ -809,6 +877,12 @@ def compare(c, ires, mres):
             return "under the raw_manifest %s the id / compute_hash() are %s / %s, model says %s" % (raw["used"][:40], raw["id"], raw["compute_hash"], want)
         if raw["manifest"] != ires["manifest"]:
             return "directory_git_object() of a Directory with a raw_manifest does not format its entries"
+    if v and "error" not in iv and "dict_routes" in iv and iv["dict_routes"] != [iv["id"], iv["manifest"], "ok"]:
+        return "second entry set (%s) decoded from its dictionary: %s, built with the constructors: id %s" % (v["kind"], _short(iv["dict_routes"]), iv["id"])
+    if v and "error" in iv and "dict_routes" in iv and iv["dict_routes"] != "error:" + iv["error"]:
+        return "second entry set (%s): the constructor raises %s, the dictionary routes: %s" % (v["kind"], iv["error"], _short(iv["dict_routes"]))
+    if v and "dict_routes_first_again" in iv and iv["dict_routes_first_again"] != [ires.get("id"), ires.get("manifest"), "ok"]:
+        return "the first set decoded from its dictionary again after the second set's (%s): %s" % (v["kind"], _short(iv["dict_routes_first_again"]))
     if v and iv.get("evolve") is not None and "error" not in iv and iv.get("evolve") != iv["id"]:
         return "first.evolve(entries=<second set>) has id %s, the second set's id is %s" % (iv["evolve"], iv["id"])
     return None
